@@ -71,6 +71,31 @@ class Ctx:
             self.analysed.add(fq)
         return o
 
+    def include(self, modname, prefix, only=None):
+        """Run the rules of a prerequisite property inside this one; its rule ids are reported as <prefix><id>."""
+        import importlib
+        mod = importlib.import_module(f'gsa.rules.{modname}')
+        outer = self
+
+        class Sub:
+            def __getattr__(self_, k):
+                return getattr(outer, k)
+
+            def ob(self_, rule, *a, **kw):
+                if only is not None and rule not in only:
+                    return None
+                return outer.ob(prefix + rule, *a, **kw)
+
+            def floor(self_, rule, n, why=''):
+                if only is None or rule in only:
+                    outer.floor(prefix + rule, n, why)
+
+            def doc(self_, rule, text):
+                if only is None or rule in only:
+                    outer.doc(prefix + rule, f'[{modname}.{rule}] ' + text)
+
+        mod.check(Sub())
+
     def floor(self, rule, n, why=''):
         self.floors[f'{self.prop}.{rule}'] = (n, why)
 
@@ -175,8 +200,10 @@ def run_property(prop, tier='quick', root='/repo', overrides=None, write=True, q
             counts[o.rule] = counts.get(o.rule, 0) + 1
         for rule, (n, why) in ctx.floors.items():
             if counts.get(rule, 0) < n:
-                raise AnalysisError(f'rule {rule} matched {counts.get(rule, 0)} instance(s), fewer than the {n} '
-                                    f'confirmed by hand ({why}): anchor vanished or idiom unrecognised')
+                # fail closed, but a definite violation found elsewhere is still reported first
+                ctx.obs.append(Obligation(rule, 'gemdat', f'instance floor of {rule}', 'undecided',
+                                          f'rule {rule} matched {counts.get(rule, 0)} instance(s), fewer than the {n} confirmed by hand '
+                                          f'({why}): anchor vanished or idiom unrecognised'))
     except AnalysisError as e:
         lines.append(f'ANALYSIS-ERROR property={prop} {e}')
         if write:
